@@ -427,6 +427,22 @@ def lowerE : Expr → Nat → Option (Code × Value × Nat)
               ++ [.assign (.t c) (.binop xl op xr), .assign (.x x) (.move (.t c))],
             .const .unit, c + 1)
     else none
+  | .assignF x i e, c => do
+    -- `assign` with a projection: the value goes to a temporary, then into the place `x.f`
+    let (ce, ve, c) ← lowerE e c
+    pure (ce ++ [.assign (.t c) ve, .assignField (.x x) i (.move (.t c))], .const .unit, c + 1)
+  | .cassignF op x i e, c =>
+    -- `compound_assign`: `x.f = x.f op e` — `binop` clones the target path into a temporary first
+    if op.isArith then do
+      let xl := Var.t c
+      let (cr, vr, c) ← lowerE e (c + 1)
+      let mr := atvCode vr c
+      let xr := atvVar vr c
+      let c := atvNext vr c
+      pure ([.assign xl (.cloneField (.x x) i)] ++ (cr ++ mr)
+              ++ [.assign (.t c) (.binop xl op xr), .assignField (.x x) i (.move (.t c))],
+            .const .unit, c + 1)
+    else none
   | .ret e, c => do
     let (ce, ve, c) ← lowerE e c
     let me := atvCode ve c
